@@ -128,6 +128,10 @@ impl<S, T: Iterator<Item = S>> Iterator for ProgressBarIter<T> {
 
         item
     }
+
+    fn size_hint(&self) -> (usize, Option<usize>) {
+        self.it.size_hint()
+    }
 }
 
 impl<T: ExactSizeIterator> ExactSizeIterator for ProgressBarIter<T> {
@@ -299,6 +303,10 @@ impl<S: futures_core::Stream + Unpin> futures_core::Stream for ProgressBarIter<S
             std::task::Poll::Pending => {}
         }
         item
+    }
+
+    fn size_hint(&self) -> (usize, Option<usize>) {
+        self.it.size_hint()
     }
 }
 
